@@ -15,7 +15,7 @@ import FluteModel.RecvFull
                f = <toiHex>/<cc>/<tlen>/<oti>     cc = n|nc|ms|e<ntpSecs>   oti = -|fec:esl:msbl
     recv cleanup <now> <stale>
     recv isexp <elapsed>                                             -> exp 0|1
-    recv fz ... | recv fzc ...                                       -> fz   (opaque robustness ops, not modelled)
+    recv fz ... | recv fzc ... | recv iso <now> <hex,hex..>           -> fz   (opaque robustness ops, not modelled; iso = in a child process)
   answers:  <OK|ERR|PANIC> <nb_objects> <nb_objects_error> <events sorted stably by TOI>
 -/
 namespace Flute.Drv.Recv
@@ -179,6 +179,7 @@ def step (d : DState) (args : List String) : DState × String :=
   match args with
   | "fz" :: _ => (d, "fz")
   | "fzc" :: _ => (d, "fz")
+  | "iso" :: _ => (d, "fz")
   | "expect" :: _ => (d, "ok")
   | "sleep" :: _ => (d, "ok")
   | "mr" :: _ => (d, "ok")
